@@ -25,6 +25,8 @@ for f in files:
             except Exception: return False
         add = [l for l in new if l.strip() and l not in cur and _own(l)]
         if add:
+            if os.path.exists(f) and not open(f).read().endswith("\n"):
+                open(f, "a").write("\n")
             with open(f, "a") as fh:
                 for l in add: fh.write(l + "\n")
         taken.append(f + " (+%d lines)" % len(add)); continue
